@@ -9,7 +9,7 @@ import math
 
 from ..absint import AFormat, ALen, AList, AObj, APack, BV, Interp, Seg, SymList, Unknown
 from ..cfg import cfg_of
-from ..astutil import call_name, norm, walk_no_nested
+from ..astutil import call_name, norm, try_fold, walk_no_nested
 from ..core import AnalysisError
 from ..tables import bitfields, namedtuple_fields
 
@@ -108,6 +108,10 @@ def run(repo, rep):
     rep.assume("driver action ids (1,2,5), the COP1 magic and the reserved<<16|length decoding are frozen from the Ethos-U core driver ABI")
 
     rule_stateless(repo, rep, mod)
+    rep.clause("C17-l", "the size guard rejects exactly the lengths that do not fit 24 bits; the empty stream is accepted")
+    rule_length_guard_exact(repo, rep, mod)
+    rep.clause("C17-m", "buffers are 16-byte aligned in the written file (Prep(16)), so that the payload's own 16-byte alignment of the command words holds in the file")
+    rule_file_alignment(repo, rep)
     externs = {}
     it = Interp(repo, mod, externs)
 
@@ -456,3 +460,76 @@ def rule_custom_op_operand_readers(repo, rep):
     if n < 1:
         raise AnalysisError("no unpacking of <op>.inputs[:4] found (expected rawdata_writer)")
     rep.floor("C17-k", 1)
+
+
+def rule_length_guard_exact(repo, rep, mod):
+    """(l) create_driver_payload rejects a stream exactly when its length does not fit the 24-bit length field: the test in front of the
+    raise is evaluated (own evaluator over comparisons, boolean operators, shifts and len()) for lengths 0, 1, 2, 2^16, 2^24 - 1, 2^24,
+    2^24 + 1, 2^25: it raises iff length >= 2^24. In particular the empty stream is a legal payload (a header declaring 0 words)."""
+    f = mod.func("create_driver_payload")
+    site = "ethosu/vela/driver_actions.py:create_driver_payload"
+    guards = [i for i in ast.walk(f) if isinstance(i, ast.If) and any(isinstance(x, ast.Raise) for x in i.body) and "len(" in str(norm(i.test))]
+    if len(guards) != 1:
+        raise AnalysisError(f"create_driver_payload: {len(guards)} length guards")
+    pname = f.args.args[0].arg
+
+    def ev(e, L):
+        if isinstance(e, ast.Constant):
+            return e.value
+        if isinstance(e, ast.Call) and call_name(e) == "len" and len(e.args) == 1 and isinstance(e.args[0], ast.Name) and e.args[0].id == pname:
+            return L
+        if isinstance(e, ast.BinOp):
+            a, b = ev(e.left, L), ev(e.right, L)
+            ops = {ast.LShift: lambda x, y: x << y, ast.RShift: lambda x, y: x >> y, ast.Add: lambda x, y: x + y, ast.Sub: lambda x, y: x - y, ast.Mult: lambda x, y: x * y,
+                   ast.Pow: lambda x, y: x ** y, ast.FloorDiv: lambda x, y: x // y, ast.BitAnd: lambda x, y: x & y, ast.BitOr: lambda x, y: x | y}
+            if type(e.op) in ops:
+                return ops[type(e.op)](a, b)
+        if isinstance(e, ast.UnaryOp) and isinstance(e.op, ast.Not):
+            return not ev(e.operand, L)
+        if isinstance(e, ast.UnaryOp) and isinstance(e.op, ast.USub):
+            return -ev(e.operand, L)
+        if isinstance(e, ast.BoolOp):
+            vs = [ev(v, L) for v in e.values]
+            return all(vs) if isinstance(e.op, ast.And) else any(vs)
+        if isinstance(e, ast.Compare):
+            left = ev(e.left, L)
+            for op, c in zip(e.ops, e.comparators):
+                r = ev(c, L)
+                ok = {ast.Lt: left < r, ast.LtE: left <= r, ast.Gt: left > r, ast.GtE: left >= r, ast.Eq: left == r, ast.NotEq: left != r}.get(type(op))
+                if ok is None:
+                    raise AnalysisError("create_driver_payload: comparison operator not modelled")
+                if not ok:
+                    return False
+                left = r
+            return True
+        if isinstance(e, ast.Attribute) or isinstance(e, ast.Name):
+            t = str(norm(e))
+            consts = {a.targets[0].id: a.value for a in mod.tree.body if isinstance(a, ast.Assign) and len(a.targets) == 1 and isinstance(a.targets[0], ast.Name)}
+            if t in consts:
+                return ev(consts[t], L)
+        raise AnalysisError(f"create_driver_payload: length guard `{str(norm(e))[:60]}` not evaluable")
+
+    wrong = []
+    for L in (0, 1, 2, 1 << 16, (1 << 24) - 1, 1 << 24, (1 << 24) + 1, 1 << 25):
+        got = bool(ev(guards[0].test, L))
+        if got != (L >= (1 << 24)):
+            wrong.append((L, got))
+    rep.check(not wrong, "C17-l", site, "the length guard raises exactly for lengths >= 2^24 (8 probe lengths, 0 included)",
+              f"`{str(norm(guards[0].test))[:60]}`: " + ", ".join(f"length {L}: {'rejected' if g else 'accepted'}" for L, g in wrong) + " (the empty stream is a legal payload: 32-byte header declaring 0 words)")
+
+
+def rule_file_alignment(repo, rep):
+    """(m) the payload pads its header so that the command words start on a 16-byte boundary *relative to the payload*; in the written
+    file that holds only if the buffer data itself starts 16-byte aligned. TFLiteSerialiser.write_aligned_bytes reserves the vector with
+    Prep(16, ..) (flatbuffers' own CreateByteVector / CreateNumpyVector align to 4) and every buffer is written through it."""
+    tw = repo.mod("tflite_writer")
+    f = tw.func("TFLiteSerialiser.write_aligned_bytes")
+    site = "ethosu/vela/tflite_writer.py:TFLiteSerialiser.write_aligned_bytes"
+    preps = [c for c in ast.walk(f) if isinstance(c, ast.Call) and isinstance(c.func, ast.Attribute) and c.func.attr == "Prep" and c.args]
+    al = [try_fold(c.args[0]) for c in preps]
+    rep.check(bool(preps) and all(isinstance(a, int) and a >= 16 and a % 16 == 0 for a in al), "C17-m", site, "buffer data is reserved with Prep(16, ..): 16-byte aligned in the file",
+              f"alignment requests {al}: without Prep(16) a buffer starts at any multiple of 4, the command words of a payload at offset 844 begin at 876 = 12 mod 16")
+    sb = tw.func("TFLiteSerialiser.serialise_buffer")
+    uses = [c for c in ast.walk(sb) if isinstance(c, ast.Call) and str(norm(c.func)).endswith("write_aligned_bytes")]
+    other = [c for c in ast.walk(sb) if isinstance(c, ast.Call) and isinstance(c.func, ast.Attribute) and c.func.attr in ("CreateByteVector", "CreateNumpyVector", "CreateString")]
+    rep.check(bool(uses) and not other, "C17-m", "ethosu/vela/tflite_writer.py:TFLiteSerialiser.serialise_buffer", "buffer contents are written through write_aligned_bytes only", f"{[str(norm(c))[:40] for c in other]}")
